@@ -53,6 +53,13 @@ def cases(tier, seed):
     for d1, d2, d3 in itertools.product(pool3, repeat=3):
         for replace in (False, True):
             yield {"kind": "merge", "recs": [mk("m/one", d1, 0, "s0"), mk("m/two", d2, 1, "s1"), mk("m/three", d3, 2, "s2")], "replace": replace, "name": None}
+    # the same descriptor more than once among the inputs (an updated copy of a record merged over the old one)
+    for d1 in pool2[:10]:
+        for d2 in pool2[:6]:
+            for replace in (False, True):
+                yield {"kind": "merge", "recs": [mk("m/one", d1, 0, "s0"), mk("m/one", d1, 1, "s1")], "replace": replace, "name": None}
+                yield {"kind": "merge", "recs": [mk("m/one", d1, 0, "s0"), mk("m/two", d2, 1, "s1"), mk("m/one", d1, 2, "s2")], "replace": replace, "name": "x/renamed"}
+                yield {"kind": "merge", "recs": [mk("m/two", d2, 0, "s0"), mk("m/one", d1, 1, "s1"), mk("m/one", d1, 2, "s2")], "replace": replace, "name": None}
     # grouped records as inputs of a merge: first, in the middle, last
     GM = {"group": "m/grp", "members": [mk("m/ga", [["string", "a"], ["varint", "n"]], 3, "sg1"), mk("m/gb", [["string", "b"], ["datetime", "t"], ["string", "a"]], 4, "sg2")]}
     for other in pool2[:12]:
